@@ -764,15 +764,17 @@ class C17(core.Property):
             if out and out[0].startswith("IMPL-"):
                 continue
             cases.append(c)
+            self._memo[self._key(c)] = out
             blocks.append((f"ml-kcomplete {c['n']} {c['nk']} {self.ml_kind(c)}", self._schedule(out)))
             blocks.append((f"judge-gossip {c['n']}", list(out)))
+            blocks.append(self.model_block(c, self.variants[0]))
         outs = ctx.driver.run_blocks(blocks)
         complete = 0
         for i, c in enumerate(cases):
-            m, j = outs[2 * i], outs[2 * i + 1]
+            m, j, t = outs[3 * i], outs[3 * i + 1], outs[3 * i + 2]
             mk = m[0].split() if m else []
-            if len(mk) < 4 or mk[3] != "false":
-                continue        # the model rejected the schedule: that case is a disagreement of the main loop
+            if t != self._memo.get(self._key(c)) or len(mk) < 4 or mk[3] != "false":
+                continue        # model and implementation disagree on this run: the main loop's business
             if not j or mk[1] != j[0].split()[1]:
                 raise core.InfraError(f"C17: Spec.gossipComplete and MLM.kcomplete differ on {json.dumps(c)}: {m} vs {j}")
             complete += mk[1] == "1"
